@@ -155,3 +155,195 @@ def replay_cache(kind, strategies=None):
         return json.loads(line[len('REPLAY-RESULT '):])
     return {'replay_error': (err or out)[-600:]}
   return rep
+
+
+# ------------------------------------------------------------------------------------------------
+# pop  (writer thread; rely = G_R*)
+
+def bp_inv(hs):
+  """C09 cache-side invariant outside the pop window: cacheTooFull ==> size >= LOW_WATERMARK."""
+  flag = hs.state.attrs['cacheTooFull']
+  flag = flag if z3.is_expr(flag) else z3.BoolVal(bool(flag))
+  return z3.And(z3.Implies(hs.max_inf, z3.Not(flag)),
+                z3.Implies(z3.And(flag, z3.Not(hs.max_inf)), z3.ToReal(hs.cache.fields['size']) >= hs.low))
+
+
+def sorted_items_facts(r, ikeys, ivals, icard):
+  """what `sorted(d.items(), key=by_timestamp)` must satisfy w.r.t. the dict d = (ikeys, ivals, icard)"""
+  pty = r.ty
+  fst, snd = pty.acc
+  i, j = z3.Int('i?'), z3.Int('j?')
+  n = r.length()
+  t = r.term
+  return [
+    ('length', n == icard),
+    ('members', z3.ForAll([i], z3.Implies(z3.And(0 <= i, i < n),
+                                          z3.And(z3.Select(ikeys, fst(t[i])),
+                                                 z3.Select(ivals, fst(t[i])) == snd(t[i]))))),
+    ('sorted_unique', z3.ForAll([i, j], z3.Implies(z3.And(0 <= i, i < j, j < n), fst(t[i]) < fst(t[j])))),
+  ]
+
+
+def u_pop(ctx, index):
+  from .cache_model import enable_rely_R
+  hs = Harness(ctx, index)
+  enable_rely_R(hs)
+  d = hs.data
+  m = ctx.fresh(Atom, 'metric')
+  ctx.assume(z3.Select(d.keys, m))           # requires: metric in cache (R never removes: stable)
+  ctx.assume(bp_inv(hs))                     # C09 invariant holds when W is outside the window
+  snap = {}
+
+  def on_acq(ip):
+    snap['acq'] = d.snapshot()
+    snap['size_acq'] = hs.cache.fields['size']
+    ctx.assume(z3.Implies(z3.Not(hs.max_inf), z3.ToReal(hs.cache.fields['size']) <= hs.hard))
+
+  def on_rel(ip):
+    snap['rel'] = d.snapshot()
+    snap['size_rel'] = hs.cache.fields['size']
+  hs.install_lock_hooks('C02/pop', on_acquire=on_acq, on_release=on_rel)
+  raised = None
+  try:
+    r = hs.ip.run(CACHE + '.pop', [m], self_obj=hs.cache)
+  except PyRaise as e:
+    raised = e.exc
+  ctx.cover('pop/returns')
+  ctx.check('C02/pop/no_raise', z3.BoolVal(raised is None))
+  ctx.check('C17/pop/no_raise', z3.BoolVal(raised is None))
+  if raised is not None:
+    return
+  acq, rel = snap['acq'], snap['rel']
+  im = z3.Select(acq.inner, m)
+  ctx.check('C02/pop/removed', z3.And(rel.keys == z3.Store(acq.keys, m, z3.BoolVal(False)),
+                                      rel.inner == acq.inner, rel.card == acq.card - 1))
+  ctx.check('C02/pop/size', snap['size_rel'] == snap['size_acq'] - IM.icard(im))
+  ctx.check('C10/pop/bound', z3.Implies(z3.Not(hs.max_inf), z3.ToReal(snap['size_rel']) <= hs.hard))
+  if not isinstance(r, SymSeq):
+    ctx.check('C02/pop/result_is_list', z3.BoolVal(False))
+    return
+  for l, f in sorted_items_facts(r, IM.ikeys(im), IM.ivals(im), IM.icard(im)):
+    ctx.check('C02/pop/' + l, f)
+  # C09: when pop returns (W leaves the window) the invariant is restored
+  ctx.check('C09/pop/check_follows', bp_inv(hs))
+  ctx.check('C09/pop/signals_space_at_most_once', z3.BoolVal(len(hs.log.of('events.cacheSpaceAvailable')) <= 1))
+  ctx.check('C09/pop/never_signals_full', z3.BoolVal(len(hs.log.of('events.cacheFull')) == 0))
+
+
+def u_check_space(ctx, index):
+  """_check_available_space on its own, from any state (the window after pop's lock region)."""
+  from .cache_model import enable_rely_R
+  hs = Harness(ctx, index)
+  enable_rely_R(hs)
+  flag = hs.state.attrs['cacheTooFull']
+  ctx.assume(z3.Implies(hs.max_inf, z3.Not(flag)))
+  hs.ip.run(CACHE + '._check_available_space', [], self_obj=hs.cache)
+  ctx.cover('check_space/returns')
+  ctx.check('C09/_check_available_space/resumes', bp_inv(hs))
+  if hs.log.of('events.cacheSpaceAvailable'):
+    ctx.cover('check_space/signalled')
+
+
+def pop_spec(hs, label_prefix):
+  """Contract of pop() as used at call sites (proved by u_pop): requires metric in cache; the
+  cache then evolves by R* ; remove(metric) ; R*, the result is a fresh list sorted strictly by
+  timestamp (ownership: it is not reachable from the cache)."""
+  def apply(ip, args, kwargs):
+    selfobj, m = args
+    ip.ctx.check(label_prefix + '/pop_requires_metric_in_cache', z3.Select(hs.data.keys, m), kind='pre')
+    hs.rely(ip, None)
+    hs.assume_I()
+    d = hs.data
+    im = z3.Select(d.inner, m)
+    ip.ctx.assume(z3.Select(d.keys, m))
+    acq_total = d.total
+    d.remove(ip, m)
+    hs.cache.fields['size'] = hs.cache.fields['size'] - IM.icard(im)
+    pty = TTuple(TReal, TVal)
+    r = SymSeq.fresh(ip, pty, 'popped')
+    for l, f in sorted_items_facts(r, IM.ikeys(im), IM.ivals(im), IM.icard(im)):
+      ip.ctx.assume(f)
+    ip.ctx.assume(IM.icard(im) >= 0)
+    hs.ghost_popped = (m, im, r)
+    # _check_available_space may clear the flag
+    if ip.ctx.choose(2, 'pop:space') == 1:
+      hs.state.attrs['cacheTooFull'] = z3.BoolVal(False)
+      hs.log.add('events.cacheSpaceAvailable', (), 'ret', None)
+    hs.rely(ip, None)
+    return r
+  return Spec(CACHE + '.pop', apply)
+
+
+def choose_item_spec(hs, qual, label_prefix):
+  """Interface contract of DrainStrategy.choose_item (each strategy is verified against it in
+  C17): returns None or a metric that is in the cache; touches only the strategy's own state."""
+  def apply(ip, args, kwargs):
+    if ip.ctx.choose(2, 'choose_item:none') == 1:
+      return None
+    m = ip.ctx.fresh(Atom, 'chosen')
+    ip.ctx.assume(z3.Select(hs.data.keys, m))
+    return m
+  return Spec(qual, apply)
+
+
+def u_drain_metric(strategy):
+  def run(ctx, index):
+    from .cache_model import enable_rely_R
+    hs = Harness(ctx, index)
+    specs = {CACHE + '.pop': pop_spec(hs, 'C02/drain_metric')}
+    if strategy != 'none':
+      st = plain_strategy(index)
+      st.fields['cache'] = hs.cache
+      hs.cache.fields['strategy'] = st
+      specs['carbon.cache:DrainStrategy.choose_item'] = choose_item_spec(
+        hs, 'carbon.cache:DrainStrategy.choose_item', 'C02/drain_metric')
+    hs.ip.specs.update(specs)
+    enable_rely_R(hs)
+    hs.install_lock_hooks('C02/drain_metric')
+    raised = None
+    try:
+      r = hs.ip.run(CACHE + '.drain_metric', [], self_obj=hs.cache)
+    except PyRaise as e:
+      raised = e.exc
+    ctx.cover('drain_metric/returns')
+    ctx.check('C02/drain_metric/no_raise[%s]' % strategy, z3.BoolVal(raised is None))
+    ctx.check('C17/drain_metric/no_raise[%s]' % strategy, z3.BoolVal(raised is None))
+    if raised is not None:
+      return
+    ok_shape = isinstance(r, tuple) and len(r) == 2
+    ctx.check('C02/drain_metric/result_shape', z3.BoolVal(ok_shape))
+    if not ok_shape:
+      return
+    mm, dps = r
+    if mm is None:
+      ctx.cover('drain_metric/none')
+      ctx.check('C02/drain_metric/none_means_empty_batch',
+                z3.BoolVal(isinstance(dps, PyList) and len(dps.items) == 0))
+      ctx.check('C02/drain_metric/none_leaves_cache', z3.BoolVal(getattr(hs, 'ghost_popped', None) is None))
+    else:
+      ctx.cover('drain_metric/some')
+      gp = getattr(hs, 'ghost_popped', None)
+      ctx.check('C02/drain_metric/batch_is_pop_of_chosen',
+                z3.BoolVal(gp is not None and gp[2] is dps and z3.eq(gp[0], mm)))
+  return run
+
+
+def u_get_datapoints(ctx, index):
+  hs = Harness(ctx, index)
+  d = hs.data
+  old = d.snapshot()
+  size0 = hs.cache.fields['size']
+  m = ctx.fresh(Atom, 'metric')
+  r = hs.ip.run(CACHE + '.get_datapoints', [m], self_obj=hs.cache)
+  ctx.cover('get_datapoints/returns')
+  ctx.check('C02/query/frame', z3.And(d.keys == old.keys, d.inner == old.inner, d.card == old.card,
+                                      hs.cache.fields['size'] == size0))
+  if ctx.branch(z3.Select(old.keys, m), 'present'):
+    im = z3.Select(old.inner, m)
+    ok = isinstance(r, SymSeq)
+    ctx.check('C02/query/result_is_list', z3.BoolVal(ok))
+    if ok:
+      for l, f in sorted_items_facts(r, IM.ikeys(im), IM.ivals(im), IM.icard(im)):
+        ctx.check('C02/query/get_datapoints/' + l, f)
+  else:
+    ctx.check('C02/query/absent_gives_empty', z3.BoolVal(isinstance(r, PyList) and len(r.items) == 0))
